@@ -228,6 +228,100 @@ def history_harness(style, proto, k, chain, subclassing="none"):
     return harness
 
 
+def container_harness(ckind, dn, proto, k):
+    """the target attribute holds a container (List / Dict / Set): while linked, an in-place mutation of the current delegate's
+    container reaches the `<deferring name>_items` handlers of the deferring object exactly as it reaches the delegate's own
+    `<target>_items` handlers (same event, announced under the deferring attribute's name); deferring names shorter than, as long
+    as and longer than the target name (the forwarding listener cuts the target name off the notified name)"""
+    from traits.api import List, Dict, Set
+
+    def harness(ex):
+        errors = []
+        push_exception_handler(lambda *a: errors.append(a), reraise_exceptions=False)
+        try:
+            return body(ex, errors)
+        finally:
+            pop_exception_handler()
+
+    def body(ex, errors):
+        decl = {"list": lambda: List(Int), "dict": lambda: Dict(Int, Int), "set": lambda: Set(Int)}[ckind]
+        Model = type("Model", (HasTraits,), {"data": decl(), "dat": decl(), "data_": decl()})
+        kind = PrototypedFrom if proto else DelegatesTo
+        Proxy = type("Proxy", (HasTraits,), {"model": Instance(Model), dn: kind("model") if dn == "data" else kind("model", prefix="data")})
+        mk = {"list": lambda b: [b, b + 1], "dict": lambda b: {b: 1, b + 1: 2}, "set": lambda b: {b, b + 1}}[ckind]
+        m1, m2 = Model(data=mk(10), dat=mk(30), data_=mk(40)), Model(data=mk(20), dat=mk(50), data_=mk(60))
+        p = Proxy(model=m1)
+        items, whole, anyn, titems = [], [], [], []
+        p.on_trait_change(lambda obj, name, old, new: items.append((name, new)), dn + "_items")
+        p.on_trait_change(lambda obj, name, old, new: whole.append(new), dn)
+        p.on_trait_change(lambda obj, name, old, new: anyn.append(name))
+        for m in (m1, m2):
+            m.on_trait_change(lambda obj, name, old, new: titems.append(new), "data_items")
+        cur = m1
+        trace = []
+        val = 100
+        stale = None
+
+        def mutate(c, v, how):
+            if ckind == "list":
+                [lambda: c.append(v), lambda: c.insert(0, v), lambda: c.__setitem__(0, v), lambda: c.pop()][how]()
+            elif ckind == "dict":
+                [lambda: c.__setitem__(v, 1), lambda: c.__setitem__(next(iter(c)), v), lambda: c.update({v: 2, v + 1000: 3}), lambda: c.popitem()][how]()
+            else:
+                [lambda: c.add(v), lambda: c.symmetric_difference_update({v, next(iter(c))}), lambda: c.update({v, v + 1000}), lambda: c.pop()][how]()
+
+        for step in range(k):
+            op = ex.choice("op%d" % step, 6)
+            val += 1
+            del items[:], whole[:], anyn[:], titems[:]
+            if op == 0:                     # mutate the current delegate's container in place
+                how = ex.choice("how%d" % step, 4)
+                if len(cur.data) == 0 and how != 0:
+                    continue
+                mutate(cur.data, val + 5000, how)
+                trace.append("mutate%d" % how)
+                ex.check(len(titems) == 1, "(fixture) the delegate's own items handler hears the mutation once")
+                ex.check(len(items) == len(titems), "while linked, an in-place change of the target container notifies the items handlers "
+                                                     "of the deferring attribute exactly once")
+                ex.check(all(n_ == dn + "_items" for n_, _e in items), "... under the deferring attribute's items name")
+                ex.check(all(e is titems[0] for _n, e in items), "... with the event the delegate's own handlers receive")
+                ex.check(whole == [], "an in-place change is no whole-value change of the deferring attribute")
+                ex.check(all(n_ == dn + "_items" for n_ in anyn), "object-level handlers of the deferring object see it under the deferring "
+                                                                  "attribute's items name only")
+            elif op == 1:                   # the delegate's attribute gets a new container
+                stale = cur.data
+                cur.data = mk(val)
+                trace.append("assign")
+                ex.check(len(whole) == 1 and whole[0] is cur.data, "while linked, a new target container notifies handlers of the deferring attribute")
+                ex.check(all(n_ == dn for n_ in anyn), "object-level handlers see the change under the deferring attribute's name only")
+            elif op == 2:                   # swap the delegate object
+                cur = m2 if cur is m1 else m1
+                p.model = cur
+                trace.append("swap")
+            elif op == 3:                   # mutate the container of the object that is not the delegate
+                other = m2 if cur is m1 else m1
+                mutate(other.data, val, 0)
+                trace.append("other")
+                ex.check(items == [] and whole == [] and anyn == [], "a change on an object that is not the current delegate does not notify")
+            elif op == 4:                   # mutate a container the target attribute no longer holds
+                if stale is None or any(stale is m.data for m in (m1, m2)):
+                    continue
+                mutate(stale, val, 0)
+                trace.append("stale")
+                ex.check(items == [] and whole == [] and anyn == [], "a container the target no longer holds does not notify")
+            else:                           # similarly named attributes of the delegate change: not the target
+                mutate(cur.dat, val, 0)
+                mutate(cur.data_, val, 0)
+                cur.dat = mk(val)
+                trace.append("decoys")
+                ex.check(items == [] and whole == [] and anyn == [], "a change of another attribute of the delegate does not notify")
+            got = getattr(p, dn)
+            ex.check(got is cur.data, "the deferring attribute reads the current container of the current delegate")
+            ex.check(errors == [], "no handler raised")
+        return {"trace": trace}
+    return harness
+
+
 def lazy_chain_harness(ex):
     """chain of deferral whose intermediate delegates are *defaults that were never materialised* (not in __dict__)"""
     class T(HasTraits):
@@ -306,5 +400,16 @@ def obligations(tier, build):
                                       history_harness(style, proto, K, chain, sub),
                                       bounds={"history length": K, "prefix style": style, "chain depth": 2 if chain else 1,
                                               "prefix style of the upper level": chain, "declaring classes": sub},
+                                      leverage="choice feasibility only (compiled code runs concretely)", max_paths=100000))
+    KC = 2 if tier == "quick" else 3
+    for ckind in ("list", "dict", "set"):
+        for dn in ("v", "rows", "values", "data"):
+            for proto in (False, True):
+                obs.append(Obligation("containers/%s/%s/%s/k=%d" % (ckind, dn, "PrototypedFrom" if proto else "DelegatesTo", KC),
+                                      container_harness(ckind, dn, proto, KC),
+                                      bounds={"history length": KC, "target attribute": "data (a %s trait)" % ckind, "deferring attribute": dn,
+                                              "operations": ["mutate in place (4 ways)", "assign a new container", "swap the delegate",
+                                                             "mutate the other object's container", "mutate a replaced container",
+                                                             "change similarly named attributes"]},
                                       leverage="choice feasibility only (compiled code runs concretely)", max_paths=100000))
     return obs
